@@ -7,7 +7,7 @@ Lemma wrap64_mod v : wrap64 v = v mod two64.
 Proof.
   unfold wrap64. destruct (v <? two64) eqn:E.
   - apply N.ltb_lt in E. symmetry. apply N.mod_small. exact E.
-  - reflexivity.
+  - change mask64 with (N.ones 64). rewrite N.land_ones. reflexivity.
 Qed.
 
 Lemma two64_pow : two64 = 2 ^ 64.
@@ -190,8 +190,22 @@ Definition words_ok (l : list N) : Prop := Forall (fun x => x < two64) l.
 
 Lemma iv_ok : words_ok iv.
 Proof. unfold words_ok, iv. repeat constructor. Qed.
+Lemma iv0_lt : iv0 < two64. Proof. reflexivity. Qed.
+Lemma iv1_lt : iv1 < two64. Proof. reflexivity. Qed.
+Lemma iv2_lt : iv2 < two64. Proof. reflexivity. Qed.
+Lemma iv3_lt : iv3 < two64. Proof. reflexivity. Qed.
+Lemma iv4_lt : iv4 < two64. Proof. reflexivity. Qed.
+Lemma iv5_lt : iv5 < two64. Proof. reflexivity. Qed.
+Lemma iv6_lt : iv6 < two64. Proof. reflexivity. Qed.
+Lemma iv7_lt : iv7 < two64. Proof. reflexivity. Qed.
 
 (* ---------- fGeneric / F ---------- *)
+Lemma some_inj {A} (a b : A) : Some a = Some b -> a = b.
+Proof.
+  intros E. change (match Some a with Some x => x | None => a end = b).
+  rewrite E. reflexivity.
+Qed.
+
 Lemma init_vec_some h c0 c1 flag :
   length h = 8%nat -> exists v, init_vec h c0 c1 flag = Some v.
 Proof.
@@ -243,12 +257,13 @@ Proof.
   assert (Hv : vec_ok v).
   { unfold init_vec in Ev.
     do 9 (destruct h as [|? h]; try discriminate Ev).
-    cbn [iv] in Ev. injection Ev as <-.
+    apply some_inj in Ev. subst v.
     unfold words_ok in Hh.
     repeat match goal with H : Forall _ (_ :: _) |- _ => inversion H; clear H; subst end.
     unfold vec_ok. cbn [w0 w1 w2 w3 w4 w5 w6 w7 w8 w9 w10 w11 w12 w13 w14 w15].
-    repeat split; try assumption; try reflexivity;
-      apply lxor_lt64; try assumption; reflexivity. }
+    pose proof iv0_lt; pose proof iv1_lt; pose proof iv2_lt; pose proof iv3_lt.
+    pose proof iv4_lt; pose proof iv5_lt; pose proof iv6_lt; pose proof iv7_lt.
+    repeat split; try assumption; apply lxor_lt64; assumption. }
   pose proof (rounds_from_ok m 0 (loop_count rounds) v Hv) as Hr.
   set (r := rounds_from m 0 (loop_count rounds) v) in *.
   unfold finish in Efin.
@@ -256,7 +271,7 @@ Proof.
   injection Efin as <-.
   unfold words_ok in *.
   repeat match goal with H : Forall _ (_ :: _) |- _ => inversion H; clear H; subst end.
-  destruct Hr as (H0 & H1 & H2 & H3 & H4 & H5 & H6 & H7 & H8 & H9 & H10 & H11 & H12 & H13 & H14 & H15).
+  destruct Hr as (V0 & V1 & V2 & V3 & V4 & V5 & V6 & V7 & V8 & V9 & V10 & V11 & V12 & V13 & V14 & V15).
   repeat constructor; apply lxor_lt64; try assumption; apply lxor_lt64; assumption.
 Qed.
 
@@ -286,7 +301,7 @@ Lemma final_flag_v14 h c0 c1 v :
 Proof.
   intros Ev. unfold init_vec in *.
   do 9 (destruct h as [|? h]; try discriminate Ev).
-  cbn [iv] in *. injection Ev as <-.
+  apply some_inj in Ev. subst v.
   cbn [set_w14 w0 w1 w2 w3 w4 w5 w6 w7 w8 w9 w10 w11 w12 w13 w14 w15].
   split; [reflexivity|]. split; vm_compute; reflexivity.
 Qed.
